@@ -312,4 +312,25 @@ PROPS = {
             {"name": "cli", "test": "TestCLI", "checks": {Q: 240, T: 6000}, "shards": {Q: 8, T: 16}, "timeout": {Q: 400, T: 2400}},
         ],
     },
+    "C15": {
+        "pkg": "c15", "bin": True,
+        "technique": "grammar-based generation of configuration documents + structured tree mutation + byte-level mutation, in three "
+                     "formats, at the binary level (crash oracle); thorough adds coverage-guided native fuzzing of internal/config",
+        "level_text": "Schema-shaped documents (every section and key, right and wrong value kinds, references to existing and missing "
+                      "names, imports of files/directories/other formats/themselves, env files with hostile lines) receive 0..3 tree "
+                      "mutations (wrong type incl. null, delete, unknown key, duplicate), are emitted as YAML/JSON/TOML, optionally get "
+                      "YAML anchors / merge keys / odd keys and a byte-level mutation (truncate, splice invalid UTF-8/NUL/BOM, replace "
+                      "a byte by a syntax character); then list, validate, show <each task>, graph <each pipeline> must end within "
+                      "10 s (40 s on the retry) with exit status 0 or 1 and no panic / fatal error / goroutine dump.",
+        "level_note": "URL imports are not exercised (no network). Native fuzzing (thorough) cannot be pinned to VERIF_SEED; its "
+                      "reproducible unit is the saved input, replayed at binary level.",
+        "rule": "rapid cases; non-trivial = the document carries at least one mutation; distinct = canonical JSON of all files. Classes: "
+                "format x accepted/rejected x mutation kinds.",
+        "assumptions": ["at most one watcher per document and 16 parallel processes (inotify instance limit 128 per user)"],
+        "parts": [
+            {"name": "grammar", "test": "TestGrammar", "checks": {Q: 12000, T: 240000}, "shards": {Q: 16, T: 16}, "timeout": {Q: 500, T: 3000}, "shrinktime": "40s"},
+            {"name": "nativefuzz", "kind": "script", "script": "fuzz_c15.py", "skip": {Q: True, T: False}, "shards": {Q: 1, T: 1},
+             "timeout": {Q: 900, T: 1500}, "env": {"VERIF_FUZZTIME": {Q: 20, T: 75}}},
+        ],
+    },
 }
